@@ -48,8 +48,8 @@ MISBEHAVIOUR_CLS = {"inv_oversize", "getdata_oversize", "addr_oversize", "sendcm
 
 def runs(tier, seed):
     if tier == "thorough":
-        return [Run("net_punish", cases=6000, params={"steps": 36}, timeout=3000)]
-    return [Run("net_punish", cases=208, params={"steps": 36}, timeout=900)]
+        return [Run("net_punish", cases=1600, params={"steps": 36}, timeout=20000)]
+    return [Run("net_punish", cases=208, params={"steps": 36}, timeout=7200)]
 
 
 def tx_allowed(peer, blocksonly):
